@@ -390,23 +390,9 @@ func (e *knownEngine) Has(v ssa.Value, b *ssa.BasicBlock, f knownFact) (bool, st
 
 // guarded: a dominating edge establishes f for a value of the same class as v.
 func (e *knownEngine) guarded(v ssa.Value, b *ssa.BasicBlock, f knownFact) (bool, string) {
-	for d := b; d != nil; d = d.Idom() {
-		idom := d.Idom()
-		if idom == nil {
-			break
-		}
-		iff, ok := lastIf(idom)
-		if !ok || len(d.Preds) != 1 {
-			continue
-		}
-		onTrue := idom.Succs[0] == d
-		if !onTrue && idom.Succs[1] != d {
-			continue
-		}
-		if idom.Succs[0] == idom.Succs[1] {
-			continue
-		}
-		cond, neg := iff.Cond, false
+	for _, ce := range ctlEdges(b) {
+		onTrue := ce.onTrue
+		cond, neg := ce.iff.Cond, false
 		for {
 			u, ok := cond.(*ssa.UnOp)
 			if !ok || u.Op != token.NOT {
